@@ -135,7 +135,13 @@ fn run(ctx: &mut Ctx) {
             let s = if rng.bool() { 1.0 } else { -1.0 };
             s * 10f64.powf(rng.range(-17.0, 2.0))
         };
-        let mut p = [rng.range(-3.0, 3.0), rng.range(-3.0, 3.0), rng.range(-1.3, 1.3), r_helix, rng.range(-PI, PI), h];
+        // "any phase": mostly one turn, sometimes many turns away from zero (fit parameters are unconstrained)
+        let phase = match rng.below(8) {
+            0 => rng.range(-20.0, 20.0),
+            1 => *rng.pick(&[2.0 * PI, -2.0 * PI, 7.0, -7.0, 3.0 * PI, 100.0, -1e3, PI, -PI]),
+            _ => rng.range(-PI, PI),
+        };
+        let mut p = [rng.range(-3.0, 3.0), rng.range(-3.0, 3.0), rng.range(-1.3, 1.3), r_helix, phase, h];
         // helices that actually cross the detector half of the time
         if rng.bool() {
             let a = rng.range(-PI, PI);
@@ -147,7 +153,7 @@ fn run(ctx: &mut Ctx) {
         let q = if !near {
             (rng.range(0.1, 0.19), rng.range(-PI, PI), rng.range(-1.2, 1.2))
         } else {
-            let t = rng.range(-PI, PI);
+            let t = if rng.chance(0.2) { rng.range(-3.0 * PI, 3.0 * PI) } else { rng.range(-PI, PI) };
             if rng.chance(0.15) {
                 // Kepler resonance e = 4 pi^2 r R / h^2 = 1 for a point next to the helix
                 let c = vh::helix_at(p, t);
@@ -185,7 +191,7 @@ fn run(ctx: &mut Ctx) {
         ctx.eval();
         let r_helix = *rng.pick(&[0.03, 0.1, 0.15, 0.5, 1.0, 5.0]);
         let h = if rng.bool() { *rng.pick(&specials) } else { *rng.pick(&[0.3, -0.3, 1.0, 2.0, 1e-6, 1e-3, 50.0]) };
-        let phi0 = *rng.pick(&[0.0, PI, -PI, PI / 2.0, 0.4, -2.0, 3.0]);
+        let phi0 = *rng.pick(&[0.0, PI, -PI, PI / 2.0, 0.4, -2.0, 3.0, 7.0, -7.0, 2.0 * PI, 13.0]);
         let (x0, y0, z0) = match rng.below(3) {
             0 => (0.0, 0.0, 0.0),
             1 => (rng.range(-0.3, 0.3), rng.range(-0.3, 0.3), rng.range(-1.0, 1.0)),
